@@ -558,17 +558,31 @@ def run_rewrite(rng, obs):
         obs.nontrivial = bool(sel) and len(sel) < n
     elif which == 'synchronized':
         if n < 2: x = x + [x[0] + 1.0]; n = 2; obs.desc['x'] = x
-        i, j = rng.sample(range(n), 2)
-        scale = rng.choice([None, 2.0, -1.0])
-        mask = {i: j} if scale is None else {i: (j, scale)}
+        # documented forms: {i: j}, {i: (j, number)}, {i: (j, callable)}, negative tracked indices, several entries (unordered: no entry's
+        # target is another entry's source), entries whose index lies beyond the vector (ignored)
+        k = rng.randint(1, min(2, n // 2))
+        idx = rng.sample(range(n), 2 * k)
+        targets, sources = idx[:k], idx[k:]
+        mask, want, shown = {}, {}, {}
+        for i, j in zip(targets, sources):
+            form = rng.choice(['plain', 'plain', 'number', 'callable', 'negative'])
+            if form == 'plain': mask[i] = j; want[i] = x[j]
+            elif form == 'negative': mask[i] = j - n; want[i] = x[j]
+            elif form == 'number':
+                sc = rng.choice([2.0, -1.0, 0.5, 2]); mask[i] = (j, sc); want[i] = sc * x[j]
+            else:
+                a = rng.choice([2.0, -3.0]); mask[i] = (j, (lambda v, a=a: a * v + 1.0)); want[i] = a * x[j] + 1.0
+            shown[str(i)] = [j, form]
+        if rng.random() < 0.2: mask[n + rng.randint(0, 2)] = 0; shown['beyond'] = True      # addresses nothing
         mk = lambda: mt.synchronized(dict(mask))(ident); f = mk()
         y = f(list(x))
-        want = x[j] if scale is None else scale * x[j]
-        obs.desc['mask'] = {str(i): [j, scale]}
-        frame(obs, x, list(y), {i}, 'synchronized', mask=str(mask))
-        obs.check(y[i] == want, 'target:synchronized ties exactly the addressed entry to its partner', mask=str(mask), x=x, y=list(y), expected=want)
-        idem(obs, f, list(y), 'synchronized'); obs.event('assert:type')
-        obs.nontrivial = x[i] != want and n > 2
+        obs.desc['mask'] = shown
+        frame(obs, x, list(y), set(targets), 'synchronized', mask=str(shown))
+        obs.check(len(y) == n and all(y[i] == want[i] for i in targets), 'target:synchronized ties exactly the addressed entry to its partner', mask=str(shown), x=x, y=list(y),
+                  expected=[want[i] for i in targets])
+        idem(obs, f, list(y), 'synchronized')      # (sources are never targets, so every form is idempotent)
+        obs.event('assert:type')
+        obs.nontrivial = any(x[i] != want[i] for i in targets) and n > 2
     elif which == 'clipped':
         lo, hi = sorted([rng.choice([-5.0, -1.0, 0.0, 2.0]), rng.choice([3.0, 6.0, 9.0])])
         if rng.random() < 0.2: lo = None
